@@ -510,15 +510,6 @@ func runC17(c *Config, r *Report) {
 // group is skipped because of what its text looks like (other than being empty): a +build line
 // that follows another comment line in the same group still counts.
 func c17R6(ic *IC, r *Report, decls []*FuncInfo, okDecl *FuncInfo) {
-	loopBody := func(n ast.Node) *ast.BlockStmt {
-		switch x := n.(type) {
-		case *ast.ForStmt:
-			return x.Body
-		case *ast.RangeStmt:
-			return x.Body
-		}
-		return nil
-	}
 	// exits returns the statements leaving loop (break targeting it, or return).
 	exits := func(loop ast.Node, withContinue bool) []ast.Stmt {
 		var out []ast.Stmt
